@@ -5,7 +5,9 @@ package main
 // of an if-chain; E-D reads the rows from the package initialiser.
 
 import (
+	"fmt"
 	"go/constant"
+	"go/token"
 	"regexp"
 	"strings"
 
@@ -121,14 +123,19 @@ func tableElem(p *Program, path string) (g *ssa.Global, field string, ok bool) {
 	return gv, m[2], true
 }
 
-// tableGuard finds, in cond, the test "input & row.<flagField> != 0" for table g and returns the input subject and flag field.
+// tableGuard finds, in cond, the test "input & row.<flagField> != 0" (any) or "input & row.f == row.f" (all) for table g
+// and returns the input subject and flag field.
 func tableGuard(p *Program, cond DNF, g *ssa.Global) (subj, flagField string, ok bool) {
 	for _, c := range cond {
 		for _, l := range c {
-			if l.A.Kind != AkCmp || !l.Neg || l.A.K != "c:0" || l.A.Op != "==" {
+			if l.A.Kind != AkCmp || l.A.Op != "==" {
 				continue
 			}
 			s := stripIDs(l.A.Subj)
+			k := stripIDs(l.A.K)
+			if strings.HasPrefix(k, "(") && !strings.HasPrefix(s, "(") {
+				s, k = k, s
+			}
 			if !strings.HasPrefix(s, "(") || !strings.HasSuffix(s, ")") {
 				continue
 			}
@@ -137,13 +144,55 @@ func tableGuard(p *Program, cond DNF, g *ssa.Global) (subj, flagField string, ok
 				continue
 			}
 			for i := 0; i < 2; i++ {
-				if g2, f, isT := tableElem(p, parts[i]); isT && g2 == g {
+				g2, f, isT := tableElem(p, parts[i])
+				if !isT || g2 != g {
+					continue
+				}
+				if l.Neg && k == "c:0" { // (in & row.f) != 0
+					return parts[1-i], f, true
+				}
+				if !l.Neg && k == parts[i] { // (in & row.f) == row.f
 					return parts[1-i], f, true
 				}
 			}
 		}
 	}
 	return "", "", false
+}
+
+// expandTableRows: rows of `acc |= row.value` guarded by a test of the input against row.flag, for a constant table.
+func expandTableRows(a *An, ctx *Ctx, b *ssa.BinOp, local DNF, pos string, in ssa.Instruction) ([]Row, bool, error) {
+	if b.Op != token.OR {
+		return nil, false, nil
+	}
+	for _, cand := range []ssa.Value{b.Y, b.X} {
+		g, vf, isT := tableElem(a.P, ctx.path(cand))
+		if !isT {
+			continue
+		}
+		tab, okT := staticTable(a.P, g)
+		subj, ff, okG := tableGuard(a.P, local, g)
+		if !okT || !okG {
+			continue
+		}
+		var rows []Row
+		for _, row := range tab {
+			kv, ok1 := constU(row[vf])
+			fv, ok2 := constU(row[ff])
+			if !ok1 || !ok2 {
+				return nil, true, fmt.Errorf("table %s has a non-integer row", g.Name())
+			}
+			at := &Atom{Subj: subj, Bits: fv}
+			if popcount(fv) == 1 {
+				at.Kind = AkBit
+			} else {
+				at.Kind = AkAll
+			}
+			rows = append(rows, Row{K: kv, Kind: "or", Cond: DNF{Conj{at.ID(): Lit{A: at}}}, Pos: pos + " (table " + g.Name() + ")", In: in})
+		}
+		return rows, true, nil
+	}
+	return nil, false, nil
 }
 
 func constU(k *ssa.Const) (uint64, bool) {
